@@ -174,7 +174,10 @@ def check_learn(ctx, idx):
 def run(ctx):
     for i in range(ctx.budget(4, 16)):
         check_dqn(ctx, i)
+        ctx.gc(4)
     for i in range(ctx.budget(6, 20)):
         check_sac(ctx, i)
+        ctx.gc(4)
     for i in range(ctx.budget(10, 40)):
         check_learn(ctx, i)
+        ctx.gc(4)
